@@ -318,6 +318,16 @@ def finish(run, level_note_extra=None, rule=None, exhaustive=False, assumptions=
     for (pred, op), (n, case) in sorted(growth.items()):
         print("GROWTH-NOTE: beyond the listed properties: %s on %s differs from the specification %d times (first case %s)" % (pred, op, n, case))
     run.extra["growth_notes"] = {"%s/%s" % k: v[0] for k, v in growth.items()}
+    # conformance notes of the trace specs (the recorded result is not one the operational model allows, no property predicate
+    # failed): printed, recorded, never a verdict
+    drift = {}
+    for n in run.notes:
+        if n and str(n[0]).startswith("DRIFT") and len(n) > 1:
+            drift[(n[0], n[1])] = drift.get((n[0], n[1]), 0) + 1
+    for (kind, op), cnt in sorted(drift.items()):
+        print("DRIFT-NOTE: %s on %s: code and operational model disagree %d times (no listed property violated by it)" % (kind, op, cnt))
+    if drift:
+        run.extra["drift_by_operation"] = {"%s/%s" % k: v for k, v in drift.items()}
     for kid, (k, n) in sorted(hits.items()):
         print("KNOWN-FINDING: property=%s %s [%s; hit %d times]" % (run.prop, k["what"], kid, n))
     rc = 0
